@@ -495,7 +495,10 @@ rule OctalSal salience -017 { when F.I2 > 99 then F.I2 = 0; }`})
 		}
 	}
 	rep.Coverage["knowledge_bases"] = len(kbs)
-	rep.Coverage["evaluations"] = loads + prefixLoads + writerFaults
+	concSched, concPoints := c12Concurrent(rep, tier)
+	rep.Coverage["interleaved_store_schedules"] = concSched
+	rep.Coverage["interleaved_store_yield_points"] = concPoints
+	rep.Coverage["evaluations"] = loads + prefixLoads + writerFaults + concSched
 	rep.Coverage["complete_loads"] = loads
 	rep.Coverage["truncation_points"] = prefixLoads
 	rep.Coverage["truncated_streams_that_loaded"] = swallowed
@@ -505,6 +508,6 @@ rule OctalSal salience -017 { when F.I2 > 99 then F.I2 = 0; }`})
 		rep.Exhaustive = false
 		rep.Coverage["caps_hit"] = "time budget"
 	}
-	rep.Coverage["rule"] = "corpus: a kitchen-sink knowledge base covering every node kind and meta field (15 operators, both negation kinds, every constant kind incl. nil, method chains, selectors, all five assignment forms, negative salience, unicode description) + 7 small knowledge bases (thorough: + programs of the C01 families, up to 60). For each: store; load through a plain, a one-byte-at-a-time and a data+EOF reader; store(load) and load again (3 generations); EVERY truncation offset of the stream (quick, kitchen-sink only: every field boundary +-1 as recorded by a tracing writer), every 16th also through the one-byte reader; a writer failing at EVERY write-call index with and without a partial write; overwrite=false onto an existing entry; store, change the knowledge base (library removal / one more resource), store again, load; build one more resource / remove a rule / re-build a duplicate ON the loaded knowledge base. Oracle: equal name/version/rule names/descriptions/saliences and equal listener traces, results and final facts of instances (2 rule orders + FetchMatchingRules); a truncated stream must give an error or an equivalent knowledge base; a failing writer must give an error. Non-trivial: every truncation/fault point and every complete load compared behaviourally."
+	rep.Coverage["rule"] = "corpus: a kitchen-sink knowledge base covering every node kind and meta field (15 operators, both negation kinds, every constant kind incl. nil, method chains, selectors, all five assignment forms, negative salience, unicode description) + 7 small knowledge bases (thorough: + programs of the C01 families, up to 60). For each: store; load through a plain, a one-byte-at-a-time and a data+EOF reader; store(load) and load again (3 generations); EVERY truncation offset of the stream (quick, kitchen-sink only: every field boundary +-1 as recorded by a tracing writer), every 16th also through the one-byte reader; a writer failing at EVERY write-call index with and without a partial write; overwrite=false onto an existing entry; store, change the knowledge base (library removal / one more resource), store again, load; build one more resource / remove a rule / re-build a duplicate ON the loaded knowledge base. Oracle: equal name/version/rule names/descriptions/saliences and equal listener traces, results and final facts of instances (2 rule orders + FetchMatchingRules); a truncated stream must give an error or an equivalent knowledge base; a failing writer must give an error. Interleaved stores: 2 (thorough 3) threads each store their own library to their own writer under the cooperative scheduler, every Write call a yield point, every schedule with <= 1 preemption; each store returns nil and its stream loads into an equivalent knowledge base. Non-trivial: every truncation/fault point and every complete load compared behaviourally."
 	_ = facts.New
 }
